@@ -99,15 +99,32 @@ func init() {
 		}
 		sMap := self.(StringDict)
 		if len(args) == 1 {
-			// Make the new items with the dict constructor - this reads
-			// the argument completely before sMap is changed (it may be
-			// sMap itself)
-			other, err := DictNew(StringDictType, args, nil)
-			if err != nil {
-				return nil, err
-			}
-			for k, v := range other.(StringDict) {
-				sMap[k] = v
+			if other, ok := args[0].(StringDict); ok {
+				// (other may be sMap itself: no key is added then)
+				for k, v := range other {
+					sMap[k] = v
+				}
+			} else {
+				// an iterable of pairs is consumed pair by pair: what came
+				// before a bad item or an exception stays set
+				var pairErr error
+				err := Iterate(args[0], func(item Object) bool {
+					z, ok := item.(Tuple)
+					if !ok || len(z) != 2 {
+						pairErr = ExceptionNewf(TypeError, "non-tuple sequence")
+						return true
+					}
+					if zStr, ok := z[0].(String); ok {
+						sMap[string(zStr)] = z[1]
+					}
+					return false
+				})
+				if err == nil {
+					err = pairErr
+				}
+				if err != nil {
+					return nil, err
+				}
 			}
 		}
 		for k, v := range kwargs {
